@@ -58,6 +58,10 @@ func c11Paths(style string) (oldPath, newPath, oldName, newName string) {
 		return "gopkg.in/yaml.v2", "gopkg.in/yaml.v3", "yaml", "yaml"
 	case "slashv":
 		return "example.com/codec/v2", "example.com/codec/v3", "codec", "codec"
+	case "offname":
+		// the package name occurs nowhere in the path: only a name in the patch
+		// (literal or metavariable) or in the file can supply it
+		return "example.com/oldp-go/client", "example.com/newp-go/client", "oldp", "newp"
 	}
 	return c11Old, c11New, "oldp", "newp"
 }
@@ -451,9 +455,17 @@ func c11Draw(rt *rapid.T) *c11Case {
 		Remaining:  rapid.SampledFrom(c11Remaining).Draw(rt, "remaining"),
 		Sites:      rapid.IntRange(0, 3).Draw(rt, "sites"),
 		SecondUsed: rapid.Bool().Draw(rt, "secondUsed"),
-		PathStyle:  rapid.SampledFrom([]string{"", "", "", "gopkg", "slashv"}).Draw(rt, "pathStyle"),
+		PathStyle:  rapid.SampledFrom([]string{"", "", "", "gopkg", "slashv", "offname"}).Draw(rt, "pathStyle"),
 	}
-	if cs.PathStyle != "" && cs.NameForm == "meta" {
+	if cs.PathStyle == "offname" {
+		if cs.NameForm == "unnamed" {
+			cs.NameForm = "meta"
+		}
+		if cs.Kind == "replace" || cs.Kind == "add" {
+			// the added import is unnamed in the patch: its package name could only be guessed
+			cs.Kind = "delete"
+		}
+	} else if cs.PathStyle != "" && cs.NameForm == "meta" {
 		// a metavariable name that matches an unnamed import is spelled like the
 		// metavariable in the code; keep versioned paths to the plain forms
 		cs.NameForm = "unnamed"
